@@ -61,7 +61,7 @@ func genTimestamp(t *rapid.T, label string) uint64 {
 }
 
 func genExt(t *rapid.T, label string) []byte {
-	if rapid.IntRange(0, 2).Draw(t, label+".has") != 0 {
+	if rapid.IntRange(0, 2).Draw(t, label+".has") != 2 {
 		return nil
 	}
 	return rapid.SliceOfN(rapid.Byte(), 1, 12).Draw(t, label)
@@ -99,12 +99,13 @@ func genEntrySpec(t *rapid.T, label string, maxMuts int) EntrySpec {
 }
 
 // nonFatalLeaf issues an end-entity certificate that the lenient parser accepts with a non-fatal
-// complaint (an ExtendedKeyUsage extension holding an empty SEQUENCE).
+// complaint (a subjectAltName iPAddress of five octets).
 func nonFatalLeaf(b *world.Built, precert bool) *pki.Cert {
 	lk := keys.Pick("p256", int(b.Spec.ID))
 	cn := fmt.Sprintf("nf-%d", b.Spec.ID)
 	t := pki.Template{Serial: new(big.Int).SetUint64(uint64(b.Spec.ID)<<8 | 2), Subject: pki.CN(cn), NotBefore: pki.Epoch.AddDate(0, -1, 0), NotAfter: pki.Epoch.AddDate(1, 0, 0), Key: lk,
-		Exts: []pki.Ext{pki.KeyUsage(pki.KUDigitalSignature), pki.EKU(), pki.SANDNS(cn + ".example.com")}}
+		Exts: []pki.Ext{pki.KeyUsage(pki.KUDigitalSignature), pki.EKU(pki.OIDEKUServerAuth),
+			{OID: pki.OIDExtSAN, Value: derx.Seq(derx.TLV(0x82, []byte(cn+".example.com")), derx.TLV(0x87, []byte{10, 0, 0, 1, byte(b.Spec.ID)}))}}}
 	if precert {
 		t.Exts = append(t.Exts, pki.Poison())
 	}
@@ -511,9 +512,7 @@ func checkDec(t *testing.T, c DecCase) (v harness.Verdict) {
 
 // Decoder is the entry-decoder half of C12.
 var Decoder = harness.Define(harness.Opts{
-	Name: "decoder",
-	Rule: "(leaf_input, extra_data) built by the reference encoder from a generated PKI chain (x509 or precert, with / without pre-issuer; a leaf with a non-fatal parse complaint; 1-40 random bytes in place of the certificate / TBS) or 0-80 + 0-40 random bytes, under 0-3 edits (set / insert / delete byte, truncate, append, version / leaf type / entry type codes incl. 0x8000, length fields +-1..3, extra_data of the other entry type, empty / absent extra_data); ct.RawLogEntryFromLeaf and ct.LogEntryFromLeaf judged against internal/rfc6962 (accept <=> both parts decode completely and, for LogEntryFromLeaf, the certificate parse is non-fatal; on accept tls.Marshal(entry.Leaf) == leaf_input, chain / submitted precertificate / index equal the reference). Non-trivial: >= 1 edit or a base other than a clean chain",
-	Quick: 2500, Thorough: 15000,
+	Name:  "decoder",
+	Rule:  "(leaf_input, extra_data) built by the reference encoder from a generated PKI chain (x509 or precert, with / without pre-issuer; a leaf with a non-fatal parse complaint; 1-40 random bytes in place of the certificate / TBS) or 0-80 + 0-40 random bytes, under 0-3 edits (set / insert / delete byte, truncate, append, version / leaf type / entry type codes incl. 0x8000, length fields +-1..3, extra_data of the other entry type, empty / absent extra_data); ct.RawLogEntryFromLeaf and ct.LogEntryFromLeaf judged against internal/rfc6962 (accept <=> both parts decode completely and, for LogEntryFromLeaf, the certificate parse is non-fatal; on accept tls.Marshal(entry.Leaf) == leaf_input, chain / submitted precertificate / index equal the reference). Non-trivial: >= 1 edit or a base other than a clean chain",
+	Quick: 6000, Thorough: 20000,
 }, genDec, checkDec)
-
-var _ = derx.TagSequence
